@@ -336,8 +336,8 @@ def shapes(tier, seed):
                                                         patt="ss", sum_spin=True, canary=True), modules=MODS, max_paths=32, canary=True))
     from harness.c04 import AUX_MOLS
     for key in AUX_MOLS:
-        if AUX_MOLS[key].get("basis"):
-            continue            # non-minimal-basis entries are for the Hamiltonian checks of C04 only
+        if AUX_MOLS[key].get("basis") or AUX_MOLS[key].get("charges"):
+            continue            # non-minimal-basis / embedded entries are for the Hamiltonian checks of C04 only
         for sv in ("fci", "ccsd", "mp2"):
             if AUX_MOLS[key]["uhf"] and sv == "fci":
                 continue
